@@ -144,8 +144,19 @@ func (t *Target) denyByIP(ip net.IP) bool {
 	return false
 }
 
-// ProcessAccessRules processes access rules from options specified on the target route
+// ProcessAccessRules processes access rules from options specified on the target route.
+// A target whose rules cannot be processed fails closed: it denies every request
+// instead of being left without any rules.
 func (t *Target) ProcessAccessRules() error {
+	err := t.processAccessRules()
+	if err != nil {
+		// an allow list without blocks admits nobody
+		t.accessRules = map[string][]interface{}{ipAllowTag: nil}
+	}
+	return err
+}
+
+func (t *Target) processAccessRules() error {
 	if t.Opts["allow"] != "" && t.Opts["deny"] != "" {
 		return errors.New("specifying allow and deny on the same route is not supported")
 	}
